@@ -244,6 +244,14 @@ B("rlp-short-header-threshold-56", ["C16"],
 N("rlp-short-header-by-payload-length", ["C16"],
   [("src/support/alloy_rlp.rs", "                if bits > MAX_BITS {", "                let _ = MAX_BITS;\n                if trimmed.len() >= 56 {")])
 
+# ---- R-EXTREMES (C06): counting functions can return both extremes (seed Q8/C06, re-created)
+B("extremes-byte_len-from-leading_zeros", ["C06"],
+  [("src/bits.rs", "        (self.bit_len() + 7) / 8\n", "        Self::BYTES - self.leading_zeros() / 8\n")], "byte_len|extreme")
+N("extremes-byte_len-div_ceil", ["C06"],
+  [("src/bits.rs", "        (self.bit_len() + 7) / 8\n", "        self.bit_len().div_ceil(8)\n")])
+B("extremes-bit_len-off-by-one", ["C06"],
+  [("src/bits.rs", "        BITS - self.leading_zeros()\n", "        BITS - self.leading_zeros() + (BITS > 0) as usize\n")], "bit_len|extreme")
+
 # ---- R-TOTAL/overflow-checks on C16 (defect F16, re-created)
 B("ovf-scale-size_hint-256-bit-formula", ["C16"],
   [("src/support/scale.rs", "            _ => self.0.byte_len() + 1,\n", "            _ => (32 - self.0.leading_zeros() / 8) + 1,\n")], "Overflow(Sub:32")
